@@ -31,7 +31,11 @@ Init == ocls \in Classes /\ ostate = "fresh" /\ loadable = CanLoad(ocls, "fresh"
 Setup == ostate = "fresh" /\ Known(ocls, "setup") /\ ostate' = "setup" /\ loadable' = CanLoad(ocls, "setup") /\ UNCHANGED ocls
 Optimise == ostate = "setup" /\ Known(ocls, "optimised") /\ ostate' = "optimised" /\ loadable' = CanLoad(ocls, "optimised") /\ UNCHANGED ocls
 SaveLoad == loadable /\ UNCHANGED vars          \* a loadable object re-loads into the same lifecycle position
-Next == Setup \/ Optimise \/ SaveLoad
+\* io.set_param(obj, path, value): the object is saved, the leaf at `path` of the saved tree replaced, the tree loaded.
+\* It therefore needs a loadable object, returns a NEW object of the same class (the original is untouched), and with the
+\* value the leaf already has it is a plain SaveLoad.  io.get_param / get_params_tree read the same saved tree.
+SetParam == loadable /\ UNCHANGED vars
+Next == Setup \/ Optimise \/ SaveLoad \/ SetParam
 Spec == Init /\ [][Next]_vars
 
 \* C11: whatever could be saved can be loaded
